@@ -78,12 +78,78 @@ static int foreign_free() {
     }
     return 1;
 }
+// large and over-aligned objects: aligned, recognised, msize >= request, contents of all live blocks intact (a placement outside the backend block or an overlap shows up as a damaged pattern)
+static int large_aligned() {
+    struct L { char* p; size_t s; unsigned char tag; };
+    std::vector<L> live; unsigned char tag = 1;
+    for (size_t al : {64u, 128u, 256u, 4096u, 16384u, 65536u, 1u << 20}) for (size_t s : {8129u, 8192u, 9000u, 16000u, 65536u, 100000u, 1u << 20, (8u << 20) - 200, (8u << 20) + 1, 10u << 20}) {
+        for (int rep = 0; rep < 3; ++rep) {
+            char* p = (char*)scalable_aligned_malloc(s, al); if (!p) continue;
+            if ((uintptr_t)p % al) { std::printf("REPRODUCED class=aligned scalable_aligned_malloc(%zu,%zu) returned %p\n", s, al, (void*)p); return 0; }
+            if (!isLargeObject<ourMem>(p)) { std::printf("REPRODUCED class=large-not-recognised scalable_aligned_malloc(%zu,%zu) returned %p which isLargeObject<ourMem>() rejects: free/msize/realloc will treat it as a slab object\n", s, al, (void*)p); return 0; }
+            size_t ms = scalable_msize(p);
+            if (ms < s) { std::printf("REPRODUCED class=msize-too-small scalable_msize(scalable_aligned_malloc(%zu,%zu)) == %zu\n", s, al, ms); return 0; }
+            LargeMemoryBlock* lmb = ((LargeObjectHdr*)p - 1)->memoryBlock;
+            if ((uintptr_t)p - sizeof(LargeObjectHdr) < (uintptr_t)lmb + sizeof(LargeMemoryBlock) || (uintptr_t)p + s > (uintptr_t)lmb + lmb->unalignedSize) {
+                std::printf("REPRODUCED class=large-object-outside-its-block scalable_aligned_malloc(%zu,%zu): object [%p,+%zu) with header does not fit its backend block [%p,+%zu)\n", s, al, (void*)p, s, (void*)lmb, lmb->unalignedSize); return 0; }
+            std::memset(p, tag, s); live.push_back({p, s, tag}); tag = (unsigned char)(tag % 250 + 1);
+        }
+        if (live.size() > 40) { for (size_t i = 0; i < live.size(); i += 2) { scalable_aligned_free(live[i].p); live[i].p = nullptr; } std::vector<L> keep; for (auto& l : live) if (l.p) keep.push_back(l); live.swap(keep); }
+        for (auto& l : live) for (size_t i = 0; i < l.s; i += 61) if ((unsigned char)l.p[i] != l.tag) { std::printf("REPRODUCED class=large-overlap a live large block of %zu bytes was overwritten at offset %zu after scalable_aligned_malloc(%zu,%zu)\n", l.s, i, s, al); return 0; }
+    }
+    for (auto& l : live) scalable_aligned_free(l.p);
+    return 1;
+}
+// backend split/coalesce churn: blocks of many sizes are allocated, pattern-filled, freed in a scattered order and re-allocated; with all caches cleaned in between the backend must split and merge
+static int backend_churn() {
+    struct L { char* p; size_t s; unsigned char tag; };
+    std::vector<L> live; unsigned char tag = 7; unsigned rnd = 12345;
+    for (int round = 0; round < 6; ++round) {
+        for (int i = 0; i < 60; ++i) {
+            rnd = rnd * 1103515245u + 12345u; size_t s = 9000 + (rnd >> 8) % 300000;
+            char* p = (char*)scalable_malloc(s); if (!p) continue;
+            if ((uintptr_t)p % 64) { std::printf("REPRODUCED class=large-misaligned scalable_malloc(%zu) returned %p\n", s, (void*)p); return 0; }
+            std::memset(p, tag, s); live.push_back({p, s, tag}); tag = (unsigned char)(tag % 250 + 1);
+        }
+        for (auto& l : live) for (size_t i = 0; i < l.s; i += 127) if ((unsigned char)l.p[i] != l.tag) { std::printf("REPRODUCED class=backend-overlap a live block of %zu bytes was overwritten at offset %zu (round %d): two live blocks overlap, or allocator metadata was written into a live block\n", l.s, i, round); return 0; }
+        std::vector<L> keep;
+        for (size_t i = 0; i < live.size(); ++i) { if ((i * 7 + round) % 3) { scalable_free(live[i].p); } else keep.push_back(live[i]); }
+        live.swap(keep);
+        scalable_allocation_command(TBBMALLOC_CLEAN_ALL_BUFFERS, nullptr);
+    }
+    for (auto& l : live) scalable_free(l.p);
+    scalable_allocation_command(TBBMALLOC_CLEAN_ALL_BUFFERS, nullptr);
+    return 1;
+}
+// public free list under real threads: a producer allocates, consumers free (foreign frees), the producer re-allocates: every block handed out must be distinct from all live ones
+static int cross_thread_churn() {
+    for (size_t s : {16u, 64u, 200u, 1024u, 3000u}) {
+        std::vector<char*> blocks; for (int i = 0; i < 2000; ++i) { char* p = (char*)scalable_malloc(s); if (p) { std::memset(p, 0x5a, s); blocks.push_back(p); } }
+        std::thread t1([&] { for (size_t i = 0; i < blocks.size(); i += 2) scalable_free(blocks[i]); });
+        std::thread t2([&] { for (size_t i = 1; i < blocks.size(); i += 4) scalable_free(blocks[i]); });
+        std::set<char*> liveset; for (size_t i = 3; i < blocks.size(); i += 4) liveset.insert(blocks[i]);
+        std::vector<char*> fresh;
+        for (int i = 0; i < 3000; ++i) { char* p = (char*)scalable_malloc(s); if (!p) continue;
+            if (liveset.count(p)) { t1.join(); t2.join(); std::printf("REPRODUCED class=handed-out-twice scalable_malloc(%zu) returned %p, a block that is still live (never freed)\n", s, (void*)p); return 0; }
+            liveset.insert(p); fresh.push_back(p); }
+        t1.join(); t2.join();
+        for (size_t i = 3; i < blocks.size(); i += 4) { for (size_t k = 0; k < s; ++k) if ((unsigned char)blocks[i][k] != 0x5a) { std::printf("REPRODUCED class=live-block-overwritten a live %zu-byte block was written to while other threads freed its neighbours\n", s); return 0; } scalable_free(blocks[i]); }
+        for (char* p : fresh) scalable_free(p);
+    }
+    return 1;
+}
 int main(int argc, char** argv) {
     std::string job = argc > 1 ? argv[1] : "";
     if (job.rfind("realloc.large", 0) == 0 && realloc_large() == 0) return 0;
     if (job.rfind("free.", 0) == 0 && foreign_free() == 0) return 0;
+    if ((job.rfind("lloc.", 0) == 0 || job.rfind("aligned.large", 0) == 0) && large_aligned() == 0) return 0;
+    if ((job.rfind("backend.", 0) == 0 || job.rfind("guard.", 0) == 0) && backend_churn() == 0) return 0;
+    if ((job.rfind("pfl.", 0) == 0 || job.rfind("freelist.", 0) == 0) && cross_thread_churn() == 0) return 0;
     if (small_objects() == 0) return 0;
     if (foreign_free() == 0) return 0;
     if (realloc_large() == 0) return 0;
+    if (large_aligned() == 0) return 0;
+    if (backend_churn() == 0) return 0;
+    if (cross_thread_churn() == 0) return 0;
     std::printf("NOT-REPRODUCED\n"); return 0;
 }
